@@ -96,6 +96,16 @@ EvOp ==
        /\ curs' = [curs EXCEPT ![e.c] = After(curs[e.c], e.op, e.res)]
     /\ UNCHANGED <<content, cfg>>
 
+\* one cursor operation of a history in which a source failure is injected (family history_faulty)
+EvOpF ==
+    /\ IsEvent("OpF")
+    /\ LET e == Rec[l] IN
+       /\ e.c \in DOMAIN curs
+       /\ e.op \in Ops
+       /\ AllowedF(content, curs[e.c], e.op, e.q, e.res, e.fired)
+       /\ curs' = [curs EXCEPT ![e.c] = AfterF(curs[e.c], e.op, e.res, e.fired)]
+    /\ UNCHANGED <<content, cfg>>
+
 \* Clone: d continues from c's position, independently
 EvClone ==
     /\ IsEvent("Clone")
@@ -124,7 +134,7 @@ EvScan ==
 \* summary of an exhaustive exploration (informational)
 EvExplored == IsEvent("Explored") /\ UNCHANGED <<content, cfg, curs>>
 
-TraceNext == EvExplored \/ EvReset \/ EvDict \/ EvWritten \/ EvOpen \/ EvCursor \/ EvOp \/ EvClone \/ EvForget \/ EvScan
+TraceNext == EvExplored \/ EvReset \/ EvDict \/ EvWritten \/ EvOpen \/ EvCursor \/ EvOp \/ EvOpF \/ EvClone \/ EvForget \/ EvScan
 
 TraceSpec == TraceInit /\ [][TraceNext]_vars
 
